@@ -211,7 +211,7 @@ func rejects(b *ast.BlockStmt, req string) bool {
 		return false
 	}
 	sel, ok := call.Fun.(*ast.SelectorExpr)
-	if !ok || (sel.Sel.Name != "Wrapf" && sel.Sel.Name != "Wrap") || !pureArg(sel.X, req) {
+	if !ok || (sel.Sel.Name != "Wrapf" && sel.Sel.Name != "Wrap" && src(call.Fun) != "fmt.Errorf") || !pureArg(sel.X, req) {
 		return false
 	}
 	for _, a := range call.Args {
@@ -781,6 +781,7 @@ func main() {
 
 	// app/keepers/keepers.go: what authAddr is
 	authExpr, authUses := "", 0
+	var keeperAuth [][3]string
 	{
 		p := filepath.Join(repo, "app/keepers/keepers.go")
 		af, err := parser.ParseFile(fset, p, nil, 0)
@@ -805,6 +806,29 @@ func main() {
 		if authExpr == "" {
 			die("app/keepers/keepers.go: no assignment to authAddr found")
 		}
+		// one row per keeper constructor call that is handed an authority-like argument (the variable authAddr or
+		// any NewModuleAddress(..) expression): (what it is assigned to, constructor, the argument)
+		ast.Inspect(af, func(n ast.Node) bool {
+			as, ok := n.(*ast.AssignStmt)
+			if !ok || len(as.Lhs) != 1 || len(as.Rhs) != 1 {
+				return true
+			}
+			lhs := src(as.Lhs[0])
+			ast.Inspect(as.Rhs[0], func(m ast.Node) bool {
+				c, ok := m.(*ast.CallExpr)
+				if !ok {
+					return true
+				}
+				for _, a := range c.Args {
+					t := src(a)
+					if t == "authAddr" || strings.HasPrefix(t, "authtypes.NewModuleAddress(") {
+						keeperAuth = append(keeperAuth, [3]string{lhs, src(c.Fun), t})
+					}
+				}
+				return true
+			})
+			return true
+		})
 	}
 
 	var sb strings.Builder
@@ -850,6 +874,14 @@ func main() {
 	}
 	sb.WriteString("].\n\n")
 	fmt.Fprintf(&sb, "(* baseapp's MsgServiceRouter handler wrapper calls msg.ValidateBasic() before the service method *)\nDefinition gen_router_validates_basic : bool := %s.\n\n", coqBool(routerVB))
+	sb.WriteString("(* app/keepers/keepers.go: every keeper constructor call that receives an authority-like argument: (assigned to, constructor, argument) *)\nDefinition gen_keeper_authorities : list (string * string * string) :=\n [")
+	for i, k := range keeperAuth {
+		if i > 0 {
+			sb.WriteString(";\n  ")
+		}
+		fmt.Fprintf(&sb, "(%s, %s, %s)", coqStr(k[0]), coqStr(k[1]), coqStr(k[2]))
+	}
+	sb.WriteString("].\n\n")
 	fmt.Fprintf(&sb, "Definition gen_authaddr_expr : string := %s.\n", coqStr(authExpr))
 	fmt.Fprintf(&sb, "Definition gen_authaddr_uses : Z := %d.\n", authUses)
 	if err := os.WriteFile(filepath.Join(out, "Gen_Authority.v"), []byte(sb.String()), 0o644); err != nil {
